@@ -32,15 +32,80 @@ def shiftX (d : Nat) : XOp → XOp
   | .roleset f o g => .roleset f (sh d o) (sh d g)
   | .newholder o r => .newholder (sh d o) (sh d r)
   | .clone o s deep => .clone (sh d o) (sh d s) deep
+  | .adopt o s f => .adopt (sh d o) (sh d s) f
 
 def runX (q : Quirks) (st : DSt) (ops : List XOp) : DSt := runXS schema q st ops
 
-def cleanup (body : List XOp) : List XOp :=
-  let dq : List Op := body.filterMap (fun op => match op with | XOp.m (Op.mkq k _ _) => some (Op.dropq k) | _ => none)
+/-- loop operations: the shared ones, plus a lazily consumed evaluation split into "call `evaluate()`" (`qstart`) and
+"consume it" (`qdrain` = `next()` until it ends) with anything in between; after every consumed evaluation the driver
+counts the wrappers of the registry that belong to no live instance (`dead=`: the maximum seen) -/
+inductive LOp where
+  | x (op : XOp)
+  | qstart (k : Nat) (c : Cls)
+  | qdrain (k : Nat)
+
+structure LSt where
+  st : DSt
+  iters : List Iter := []
+  dead : Nat := 0
+  raised : Bool := false
+
+def shiftL (d : Nat) : LOp → LOp
+  | .x op => .x (shiftX d op)
+  | .qstart k c => .qstart (k + d) c
+  | .qdrain k => .qdrain (k + d)
+
+def drain (q : Quirks) (st : DSt) (it : Iter) : Nat → DSt × Iter
+  | 0 => (st, it)
+  | fuel + 1 =>
+    if it.status != 0 then (st, it)
+    else let r := advance q false schema schema st it; drain q r.1 r.2 fuel
+
+/-- right after a consumed evaluation: the wrappers of the registry whose instance is dead (the evaluation swept
+before it read its domain, so there is none unless an instance died while it ran) -/
+def probeL (r : LSt) : LSt :=
+  { r with dead := max r.dead ((r.st.g.nodes.filter (fun w => !r.st.h.isLive w.obj)).length) }
+
+def stepL (q : Quirks) (r : LSt) : LOp → LSt
+  | .x op =>
+    let st := runX q r.st [op]
+    match op with
+    | .m (.evalq k) => if r.st.h.qvars.any (fun v => v.key == k) then probeL { r with st := st } else { r with st := st }
+    | _ => { r with st := st }
+  | .qstart k c =>
+    if r.st.err || r.iters.any (fun it => it.key == k) then r
+    else { r with st := stepD q r.st (.mkq (iterKey k) c none), iters := r.iters ++ [{ key := k, cls := c }] }
+  | .qdrain k =>
+    match r.iters.find? (fun it => it.key == k) with
+    | none => r
+    | some it =>
+      if r.st.err then r else
+      let (st, it') := drain q r.st it (r.st.g.nodes.length + 3)
+      probeL { r with st := st, iters := r.iters.map (fun x => if x.key == k then it' else x),
+                      raised := r.raised || it'.status == 2 }
+
+def runL (q : Quirks) (r : LSt) (ops : List LOp) : LSt := ops.foldl (stepL q) r
+
+def parseL (xs : List Sexp) : Option (List LOp) :=
+  let rec go (pos : Nat) : List Sexp → Option (List LOp)
+    | [] => some []
+    | x :: r => do
+      let a ← match x with
+        | .list [.atom "qstart", k, c] => do pure [LOp.qstart (← k.asNat?) (← c.asNat?)]
+        | .list [.atom "qdrain", k] => do pure [LOp.qdrain (← k.asNat?)]
+        | _ => do pure ((← parseXOne pos x).map LOp.x)
+      let b ← go (pos + 1) r
+      pure (a ++ b)
+  go 0 xs
+
+def cleanup (body : List LOp) : List LOp :=
+  let dq : List Op := body.filterMap (fun op => match op with
+    | .x (XOp.m (Op.mkq k _ _)) => some (Op.dropq k) | .qstart k _ => some (Op.dropq (iterKey k)) | _ => none)
   let dr : List Op := body.filterMap (fun op => match op with
-    | XOp.m (Op.new o _ _) => some (Op.drop o) | XOp.newrole o _ => some (Op.drop o)
-    | XOp.newholder o _ => some (Op.drop o) | XOp.clone o _ _ => some (Op.drop o) | _ => none)
-  (dq ++ dr ++ [Op.sweep]).map XOp.m
+    | .x (XOp.m (Op.new o _ _)) => some (Op.drop o) | .x (XOp.newrole o _) => some (Op.drop o)
+    | .x (XOp.newholder o _) => some (Op.drop o) | .x (XOp.clone o _ _) => some (Op.drop o)
+    | .x (XOp.adopt o _ _) => some (Op.drop o) | _ => none)
+  (dq ++ dr ++ [Op.sweep]).map (fun o => LOp.x (XOp.m o))
 
 structure Sizes where
   nodes : Nat
@@ -61,35 +126,37 @@ def relStale (st : DSt) : Bool :=
 
 /-- run the loop; returns the final state, the sizes after every iteration, and the instances that were
 registered and died in the LAST clean-up (their `_instance_index` entries cannot have been overwritten) -/
-def runLoop (q : Quirks) (n : Nat) (pre body : List XOp) : DSt × List Sizes × Bool × Bool :=
-  let rec go (i : Nat) (fuel : Nat) (st : DSt) (acc : List Sizes) (diedLast diedEver : Bool) :
-      DSt × List Sizes × Bool × Bool :=
+def runLoop (q : Quirks) (n : Nat) (pre body : List LOp) : LSt × List Sizes × Bool × Bool :=
+  let rec go (i : Nat) (fuel : Nat) (r : LSt) (acc : List Sizes) (diedLast diedEver : Bool) :
+      LSt × List Sizes × Bool × Bool :=
     match fuel with
-    | 0 => (runX q st (cleanup pre), acc, diedLast, diedEver)
+    | 0 => (runL q r (cleanup pre), acc, diedLast, diedEver)
     | fuel + 1 =>
-      let b := body.map (shiftX (1000 * i))
-      let st1 := runX q st b
-      let before := st1.h.live.map (·.obj)
-      let st2 := runX q st1 (cleanup b)
-      let died := before.any (fun o => !st2.h.isLive o)
-      let diedBody := (st.h.live.map (·.obj) ++
+      let b := body.map (shiftL (1000 * i))
+      let r1 := runL q r b
+      let before := r1.st.h.live.map (·.obj)
+      let r2 := runL q r1 (cleanup b)
+      let died := before.any (fun o => !r2.st.h.isLive o)
+      let diedBody := (r.st.h.live.map (·.obj) ++
           (b.filterMap fun op => match op with
-            | .m (.new o _ _) => some o | .newrole o _ => some o | .newholder o _ => some o | .clone o _ _ => some o
-            | _ => none)).any
-        (fun o => !st2.h.isLive o)
-      go (i + 1) fuel st2 (acc ++ [sizes st2]) died (diedEver || diedBody)
-  go 0 n (runX q (St.init lifo) pre) [] false false
+            | .x (.m (.new o _ _)) => some o | .x (.newrole o _) => some o | .x (.newholder o _) => some o
+            | .x (.clone o _ _) => some o | .x (.adopt o _ _) => some o | _ => none)).any
+        (fun o => !r2.st.h.isLive o)
+      go (i + 1) fuel r2 (acc ++ [sizes r2.st]) died (diedEver || diedBody)
+  go 0 n (runL q { st := St.init lifo } pre) [] false false
 
-def obs (q : Quirks) (n : Nat) (pre body : List XOp) : String :=
-  let (st, ss, diedLast, diedEver) := runLoop q n pre body
+def obs (q : Quirks) (n : Nat) (pre body : List LOp) : String :=
+  let (r, ss, diedLast, diedEver) := runLoop q n pre body
+  let st := r.st
   if st.err then "exc" else
   let surv := sortNat (st.h.live.map (·.obj))
   let inst := if !q.keepDeadIndex then "clean" else if diedLast then "stale" else if diedEver then "?" else "clean"
   let rel := classify (ss.map (·.rel)) ++ "/" ++ (if relStale st then "stale" else "clean")
   s!"surv={showNats surv} nodes={classify (ss.map (·.nodes))} cls={classify (ss.map (·.cls))} " ++
-  s!"edges={classify (ss.map (·.edges))} rel={rel} inst={inst} expr={classify (ss.map (·.exprs))} rx={classify (ss.map (·.exprs))}"
+  s!"edges={classify (ss.map (·.edges))} rel={rel} inst={inst} expr={classify (ss.map (·.exprs))} rx={classify (ss.map (·.exprs))}" ++
+  s!" dead={r.dead}" ++ (if r.raised then " raised" else "")
 
-def specObs : String := "surv=[] nodes=flat cls=flat edges=flat rel=flat/clean inst=clean expr=flat rx=flat"
+def specObs : String := "surv=[] nodes=flat cls=flat edges=flat rel=flat/clean inst=clean expr=flat rx=flat dead=0"
 
 def run (s : Sexp) : String :=
   match s with
@@ -97,9 +164,10 @@ def run (s : Sexp) : String :=
     let (preS, bodyS) := match xs with
       | .list (.atom "pre" :: p) :: r => (p, r)
       | _ => ([], xs)
-    match n.asNat?, parseX preS, parseX bodyS with
+    match n.asNat?, parseL preS, parseL bodyS with
     | some n, some pre, some body =>
-      let hasQuery := (pre ++ body).any (fun op => match op with | .m (.mkq ..) => true | _ => false)
+      let hasQuery := (pre ++ body).any (fun op => match op with
+        | .x (.m (.mkq ..)) => true | .qstart .. => true | _ => false)
       let trig := joinTrig [(hasQuery, "F-C20-1")]
       s!"model={obs Quirks.asIs n pre body}\tspec={specObs}\ttrig={trig}"
     | _, _, _ => "error=bad-case"
